@@ -38,6 +38,23 @@ def coverage():
     return sorted(covered), uncovered
 
 
+def example_specs(ref, count=6):
+    """A deterministic handful of specs of the class (donors of field values for in-place edits)."""
+    key = ('specs', ref)
+    if key not in _CACHE:
+        found = []
+
+        def collect(case, _stats):
+            found.append(case)
+            return ()
+        try:
+            hyp.explore(objects.strategy_for(ref), collect, Stats(), count + 2, 20240930)
+        except Exception:  # pylint: disable=broad-except
+            pass
+        _CACHE[key] = found[2:] or found
+    return _CACHE[key]
+
+
 def warm():
     """Build the reference-seed table once in the parent process: forked shard workers inherit it."""
     from vf.core import lib as _lib  # pylint: disable=import-outside-toplevel
